@@ -195,7 +195,14 @@ class Ev:
             if isinstance(fn.value, ast.Name):
                 key = (fn.value.id, fn.attr)
                 if key in SYM_MAKERS and len(n.args) == 1:
-                    return sym(self.string(n.args[0]))
+                    try:
+                        return sym(self.string(n.args[0]))
+                    except Refuse:
+                        # Expr.symbol(e.names[0]) / Expr.symbol(theta.name): a symbol whose name is data of the call;
+                        # it becomes a formal symbol of the template, named by its source text
+                        if isinstance(n.args[0], (ast.Name, ast.Attribute, ast.Subscript)):
+                            return sym(ast.unparse(n.args[0]))
+                        raise
                 if key == ("Expr", "integer") and len(n.args) == 1:
                     return self.ev(n.args[0])
                 if fn.value.id in ("Expr", "sympy") and fn.attr in FUN1 and len(n.args) == 1:
@@ -502,6 +509,36 @@ def extract():
     if len(w) != 1 or not (isinstance(w[0].value, ast.Call) and len(w[0].value.args) == 2):
         raise Refuse("set_dtbs_error_model: wass")
     defs.append(("dtbsW", "", Ev().ev(w[0].value.args[1]), "set_dtbs_error_model: W"))
+
+    # modifiers of an existing error model: the value of the (single-entry) substitution dictionaries
+    def dict_values(fn, var="subs_dict"):
+        out = []
+        for n in ast.walk(fn):
+            if isinstance(n, ast.Assign) and len(n.targets) == 1 and isinstance(n.targets[0], ast.Name) \
+                    and n.targets[0].id == var and isinstance(n.value, ast.Dict) and len(n.value.keys) == 1:
+                out.append(n)
+        out.sort(key=lambda n: n.lineno)
+        return out
+    fn = _find(er, "set_iiv_on_ruv")
+    dv_ = dict_values(fn)
+    if len(dv_) != 1:
+        raise Refuse("set_iiv_on_ruv: expected one subs_dict = {eps: eps*exp(eta)}")
+    defs.append(("iivOnRuvKey", "", Ev().ev(dv_[0].value.keys[0]), "set_iiv_on_ruv: substituted symbol"))
+    defs.append(("iivOnRuv", "", Ev().ev(dv_[0].value.values[0]), "set_iiv_on_ruv: what each epsilon is replaced by"))
+    fn = _find(er, "set_power_on_ruv")
+    dv_ = dict_values(fn)
+    if len(dv_) != 4:
+        raise Refuse(f"set_power_on_ruv: expected four subs_dict assignments, found {len(dv_)}")
+    for nm, d, c in zip(["powerDivIpred", "powerDivAlias", "powerAdj", "powerPlain"], dv_,
+                        ["eps*ipred -> eps", "eps*alias -> eps", "eps*IPREDADJ -> IPREDADJ**theta*eps", "eps -> ipred**theta*eps"]):
+        defs.append((nm + "Key", "", Ev().ev(d.value.keys[0]), "set_power_on_ruv key: " + c))
+        defs.append((nm, "", Ev().ev(d.value.values[0]), "set_power_on_ruv value: " + c))
+    fn = _find(er, "set_time_varying_error_model")
+    comps = [n for n in ast.walk(fn) if isinstance(n, ast.DictComp)]
+    if len(comps) != 1:
+        raise Refuse("set_time_varying_error_model: expected one dict comprehension")
+    defs.append(("timeVaryingKey", "", Ev().ev(comps[0].key), "set_time_varying_error_model: substituted symbol"))
+    defs.append(("timeVarying", "", Ev().ev(comps[0].value), "set_time_varying_error_model: eps -> eps*theta before the cutoff"))
 
     # ---- allometry.py
     al = _module("allometry.py")
